@@ -137,5 +137,5 @@ INext == IPut \/ ICopy \/ IDel \/ IBDel \/ IGet \/ IInit \/ IPart \/ IComplete \
 ImplSpec == IInitState /\ [][INext]_ivars
 
 ImplOK == devs \subseteq BKF
-IView == <<obj, ups, folders, IF hist = <<>> THEN <<>> ELSE hist[Len(hist)], Len(hist)>>
+IView == <<obj, ups, folders, devs, IF hist = <<>> THEN <<>> ELSE hist[Len(hist)], Len(hist)>>
 =============================================================================
